@@ -21,6 +21,7 @@ package main
 
 import (
 	"bytes"
+	"errors"
 	"fmt"
 	"sort"
 
@@ -58,10 +59,24 @@ func sd(b []byte) secretdata.Bytes {
 	return secretdata.NewBytesFromData(bytes.Clone(b), insecuresecretdataaccess.Token{})
 }
 
+var errNoSeam = errors.New("type constructor seam unavailable on this tree")
+
+// noSeam reports (and tallies) that the chosen path needs the export shim and the shim could not be built.
+func noSeam(x *h.X, err error) bool {
+	if err == errNoSeam {
+		x.Outcome("type-constructor-seam-unavailable")
+		return true
+	}
+	return false
+}
+
 // fromKey builds a PRF for a key object through the chosen (non-subtle) path.
 func fromKey(k key.Key, path string, construct func(key.Key) (any, error)) (prf.PRF, error) {
 	switch path {
 	case pathType:
+		if !h.Seams() {
+			return nil, errNoSeam // export shim unavailable (tink internals refactored, see check.sh): path skipped
+		}
 		p, err := construct(k)
 		if err != nil {
 			return nil, err
@@ -289,6 +304,9 @@ func hmacSection(x *h.X) {
 			return
 		}
 		p, err = fromKey(k, path, hmacprf.VerifPrimitive)
+		if noSeam(x, err) {
+			return
+		}
 		if err != nil {
 			x.Fail("construct", "%s: %v", cfg, err)
 			return
@@ -331,6 +349,9 @@ func cmacSection(x *h.X) {
 			return
 		}
 		p, err = fromKey(k, path, aescmacprf.VerifPrimitive)
+		if noSeam(x, err) {
+			return
+		}
 		if err != nil {
 			x.Fail("construct", "%s: %v", cfg, err)
 			return
@@ -432,6 +453,9 @@ func hkdfSection(x *h.X) {
 			return
 		}
 		p, err = fromKey(k, path, hkdfprf.VerifPrimitive)
+		if noSeam(x, err) {
+			return
+		}
 		if err != nil {
 			x.Fail("construct", "%s: %v", cfg, err)
 			return
